@@ -51,6 +51,36 @@ def run(R, ctx):
                                                   summary="a goroutine's Pub/Sub lock/access event sequence is not a run of the model's operation automaton: " + d["mismatches"][0][:300],
                                                   args=["conc", str(R.seed), "1", "pubsub"],
                                                   explanation="hook H2b events of one goroutine judged by PSC.TA (lean/RedisGoModel/Conc/PubSubTrace.lean)"))
+    # slow consumers (model PSS = Conc/PubSubSlow.lean): the history the pubsub-stall scenario observed on the real code - who read its confirmation, when the slow
+    # subscriber stopped / resumed / closed, each PUBLISH written and answered with which count, what every subscriber holds at the end, in real-time order - must be a
+    # history of the model: the driver RUNS the model (PSS.Hist.judge: next0 / env) on it.  The verdict is the model's, not only the Go-side invariant.
+    hlines = ["PSH %s-stall-%s %s" % (r.get("build", "b"), r.get("seed"), r["hist"]) for r in reports if r.get("scenario") == "pubsub-stall" and r.get("hist")]
+    hcontrols = {
+        # the seeded C19-publish-shared-deadline: the healthy subscribers visited after the slow one fail at once, PUBLISH answers 0 before the slow one reads again
+        "reply-while-a-subscriber-is-not-reading": "sub:0 sub:1 sub:2 stall:0 ps:m1 pe:m1:0 resume:0 holds:0: holds:1: holds:2:",
+        "healthy-subscribers-not-counted": "sub:0 sub:1 sub:2 stall:0 ps:m1 resume:0 pe:m1:1 holds:0:m1 holds:1: holds:2:",
+        "healthy-subscriber-lost-a-message": "sub:0 sub:1 sub:2 stall:0 ps:m1 resume:0 pe:m1:3 ps:m2 pe:m2:3 holds:0:m1,m2 holds:1:m2 holds:2:m1,m2",
+        "duplicate-delivery": "sub:0 sub:1 ps:m1 pe:m1:2 holds:0:m1 holds:1:m1,m1",
+        "out-of-publish-order": "sub:0 sub:1 ps:m1 pe:m1:2 ps:m2 pe:m2:2 holds:0:m1,m2 holds:1:m2,m1",
+        "closed-subscriber-counted": "sub:0 sub:1 stall:0 ps:m1 close:0 pe:m1:2 holds:1:m1",
+        "healthy-subscriber-pruned-with-the-dead-one": "sub:0 sub:1 stall:0 ps:m1 close:0 pe:m1:1 ps:m2 pe:m2:0 holds:1:m1",
+        # the seeded C19-subscribe-confirm-before-join, seen from outside: a PUBLISH after the confirmation does not count the subscriber
+        "confirmed-subscriber-not-counted": "sub:0 ps:m1 pe:m1:0 holds:0:",
+    }
+    hlines += ["PSHN %s %s" % (k, v) for k, v in sorted(hcontrols.items())]
+    hd = core.run_driver(hlines)
+    hok = len(hlines) > len(hcontrols) and not hd["mismatches"] and not hd["unknown"]
+    R.oblige("slow-consumer tie, Lean side: the histories observed by the pubsub-stall scenario (one subscriber stops reading, then reads on / closes) are histories of the "
+             "model PSS (a write to a connection that is not reading blocks the Send, which holds the channel lock; ready: delivered; dead: pruned) - compiled driver, "
+             "engine PSH runs PSS.next0 / PSS.env; negative controls refused", "tie", hok,
+             "%d histories + %d controls, %d mismatches%s" % (len(hlines) - len(hcontrols), len(hcontrols), len(hd["mismatches"]),
+                                                            (": " + hd["mismatches"][0][:300]) if hd["mismatches"] else ""))
+    if hd["mismatches"]:
+        R.violation("pubsub-stall-lean", dict(kind="impl-violates-spec", engine="conc",
+                                              summary="the history observed with a slow subscriber is not a history of the model PSS: " + hd["mismatches"][0][:400],
+                                              args=["conc", str(R.seed), "1", "pubsub"], check="psh",
+                                              explanation="scenario pubsub-stall (harness/conc_pubsub_stall.go) judged by PSS.Hist.judge (lean/RedisGoModel/Conc/PubSubSlow.lean): "
+                                                          "theorems PSS.healthy_not_affected / stall_only_delays / confirm_after_join speak about this model"))
     R.rule = rule + (" Concurrent exploration: 3 stable subscribers on two channels that keep issuing PING on their own connections, 4 publishers "
                      "publishing 25 messages each (8 B to 70 kB, CR/LF inside) and 2 churn connections subscribing and disconnecting; every subscriber's "
                      "byte stream must be well-formed pushes containing each message exactly once, intact, each publisher's in order; PUBLISH counts at "
@@ -60,7 +90,34 @@ def run(R, ctx):
                      "automaton of the Lean model PSC (Conc/PubSubConc.lean) - the hypotheses of PSC.lock_order / pubsub_deadlock_free / send_sees_consistent_set.")
 
 
+def replay_psh(R, payload):
+    """run the pubsub scenarios again and let the Lean model judge the pubsub-stall histories (driver engine PSH)"""
+    import json
+    binary, err = core.build_harness()
+    if not binary:
+        print(err)
+        return 1
+    rc, so, se, dt = core.run([binary] + payload["args"], env=core.goenv(), timeout=600)
+    lines = []
+    for l in so.split("\n"):
+        if l.strip().startswith("{"):
+            try:
+                r = json.loads(l)
+            except ValueError:
+                continue
+            if r.get("scenario") == "pubsub-stall" and r.get("hist"):
+                lines.append("PSH replay-stall-%s %s" % (r.get("seed"), r["hist"]))
+    d = core.run_driver(lines) if lines else dict(mismatches=["no pubsub-stall history was produced"])
+    for m in d["mismatches"]:
+        print(m[:600])
+    bad = bool(d["mismatches"])
+    print("replay: %d histories judged by PSS.Hist.judge: %s" % (len(lines), "still failing" if bad else "not reproduced"))
+    return 1 if bad else 0
+
+
 def replay(R, payload):
+    if payload.get("check") == "psh":
+        return replay_psh(R, payload)
     if payload.get("engine") == "conc":
         return concsuite.replay_conc(R, payload)
     return core.generic_replay(R, payload)
